@@ -2,7 +2,6 @@ use std::convert::{TryFrom, TryInto};
 
 use regex::Regex;
 use smol_str::SmolStr;
-use unicode_segmentation::UnicodeSegmentation;
 use unicode_width::UnicodeWidthStr;
 
 use crate::fatal;
@@ -211,13 +210,13 @@ pub fn parse_line_number_format<'a>(
     if offset == 0 {
         let prefix = SmolStr::new("");
         let prefix = expand_first_prefix(prefix);
-        let prefix_len = prefix.graphemes(true).count();
+        let prefix_len = prefix.width();
         // No placeholders
         format_data.push(FormatStringPlaceholderData {
             prefix,
             prefix_len,
             suffix: SmolStr::new(format_string),
-            suffix_len: format_string.graphemes(true).count(),
+            suffix_len: format_string.width(),
             ..Default::default()
         })
     }
